@@ -544,17 +544,6 @@ func ruleViewIota(c *Ctx) {
 				c.bad(blockName+".count", gd.Pos(), "index block has %d members, descriptor %s has %d fields", len(ms), vi.desc.Src, len(vi.fields))
 				continue
 			}
-			// common prefix of member names
-			prefix := ms[0].name
-			for _, m := range ms {
-				for !strings.HasPrefix(m.name, prefix) {
-					prefix = prefix[:len(prefix)-1]
-				}
-			}
-			// prefix must end at a case boundary: strip to the last lowercase-to-uppercase/underscore boundary
-			for len(prefix) > 0 && !(strings.HasSuffix(prefix, "_") || unicode.IsLower(rune(prefix[len(prefix)-1]))) {
-				prefix = prefix[:len(prefix)-1]
-			}
 			var sstruct *types.Struct
 			if vi.strct != nil {
 				sstruct = vi.strct.Underlying().(*types.Struct)
@@ -565,19 +554,19 @@ func ruleViewIota(c *Ctx) {
 					c.bad(key, m.pos, "member %d of the index block has value %d (block must be dense from 0)", k, m.val)
 					continue
 				}
-				got := strings.TrimPrefix(m.name, prefix)
-				got = strings.ToUpper(got[:1]) + got[1:]
+				// witness: the longest field name that is a suffix of the constant's name (case/underscore-insensitive)
 				want := vi.fields[k]
-				if !strings.EqualFold(got, want) {
-					// contradiction form: only a violation if the name is that of another field
-					other := -1
-					for j, fn := range vi.fields {
-						if strings.EqualFold(fn, got) {
-							other = j
-						}
+				lname := strings.ToLower(strings.ReplaceAll(m.name, "_", ""))
+				other, otherLen := -1, 0
+				for j, fn := range vi.fields {
+					lf := strings.ToLower(fn)
+					if strings.HasSuffix(lname, lf) && len(lf) > otherLen {
+						other, otherLen = j, len(lf)
 					}
+				}
+				if other != k {
 					if other >= 0 {
-						c.bad(key, m.pos, "constant %s has value %d, but field %d of %s is %s; %s is field %d", m.name, k, k, vi.desc.Src, want, got, other)
+						c.bad(key, m.pos, "constant %s has value %d, but field %d of %s is %s; the name spells field %d (%s)", m.name, k, k, vi.desc.Src, want, other, vi.fields[other])
 					} else {
 						c.ok(key, m.pos, "value %d (name does not spell a field; unwitnessed)", k)
 					}
@@ -1152,17 +1141,10 @@ func ruleLitCopy(c *Ctx) {
 				if same < 3 {
 					continue
 				}
-				st, _ := derefT(srcType[o]).Underlying().(*types.Struct)
 				has := func(name string) bool {
-					if st == nil {
-						return false
-					}
-					for i := 0; i < st.NumFields(); i++ {
-						if st.Field(i).Name() == name {
-							return true
-						}
-					}
-					return false
+					obj, _, _ := types.LookupFieldOrMethod(srcType[o], true, pk.Types, name)
+					_, isVar := obj.(*types.Var)
+					return isVar
 				}
 				key := pkgShort(pk.Types) + "." + funcName(fd) + ":" + types.ExprString(cl.Type) + "<-" + o.Name()
 				bad := false
